@@ -78,6 +78,11 @@ pub struct Fault {
     pub sticky: bool,
     pub classes: u32,
     pub fired: bool,
+    /// what a failing *write* leaves behind before it reports its error: 0 = nothing (the call
+    /// fails before any byte is written), 1 = the first half of the buffer, 2 = all but the last
+    /// byte, 3 = the first 7 bytes (exactly one log-record header) - a failed write(2) /
+    /// write_all may well have written part of its data (ENOSPC, EIO in the middle)
+    pub partial: u8,
 }
 
 #[derive(Debug)]
@@ -343,8 +348,16 @@ impl VerifFs {
             sticky,
             classes,
             fired: false,
+            partial: 0,
         });
         st.calls = 0;
+    }
+
+    /// What the failing write of the armed fault leaves in the file (see `Fault::partial`).
+    pub fn set_fault_partial(&self, partial: u8) {
+        if let Some(f) = lock(&self.st).fault.as_mut() {
+            f.partial = partial;
+        }
     }
 
     /// Count calls of these classes without failing any (numbering run).
@@ -355,6 +368,7 @@ impl VerifFs {
             sticky: false,
             classes,
             fired: false,
+            partial: 0,
         });
         st.calls = 0;
     }
@@ -430,7 +444,22 @@ impl Handle {
         self.switch();
         self.check_live()?;
         let mut st = lock(&self.st);
-        st.gate(class::WRITE, &self.path)?;
+        let mut failing: Option<io::Error> = None;
+        let mut buf = buf;
+        if let Err(e) = st.gate(class::WRITE, &self.path) {
+            let partial = st.fault.as_ref().map(|f| if f.fired { f.partial } else { 0 }).unwrap_or(0);
+            let keep = match partial {
+                1 => buf.len() / 2,
+                2 => buf.len().saturating_sub(1),
+                3 => 7.min(buf.len().saturating_sub(1)),
+                _ => 0,
+            };
+            if keep == 0 {
+                return Err(e);
+            }
+            buf = &buf[..keep];
+            failing = Some(e);
+        }
         let mut bytes = lock(&self.data.bytes);
         let off = if at_end { bytes.len() } else { self.cursor as usize };
         if bytes.len() < off {
@@ -453,6 +482,9 @@ impl Handle {
                 let name = self.path.file_name().map(|s| s.to_string_lossy().to_string()).unwrap_or_default();
                 st.snapshot(format!("a write of {} bytes to {}", buf.len(), name));
             }
+        }
+        if let Some(e) = failing {
+            return Err(e);
         }
         Ok(buf.len())
     }
